@@ -7,7 +7,7 @@ From Coq Require Import Reals List Bool ZArith.
 From PyrexLib Require Import RealPrims Vec3Facts CPair SignalAlg ListOps.
 From PyrexGen Require Import Gen_ice Gen_prop.
 From PyrexModel Require Import PropagationModel.
-From PyrexProofs Require Import C03_fresnel C03_proofs C03_propagate.
+From PyrexProofs Require Import C03_fresnel C03_proofs C03_propagate FilterBridge C03_concrete.
 Import ListNotations.
 Open Scope R_scope.
 
@@ -187,6 +187,34 @@ Print Assumptions propagate_passive.
 Theorem propagate_response_le_1 : forall a z, 0 <= a <= 1 -> cabs2 z <= 1 -> cabs (cscale a z) <= 1.
 Proof. exact cabs_cscale_le. Qed.
 Print Assumptions propagate_response_le_1.
+
+(* the same without hypotheses: concrete_filter is C05's model of Signal.filter_frequencies (Model/FilterModel.v);
+   its length / linearity / passivity are C05's theorems, carried over by Proofs/FilterBridge.v *)
+Theorem propagate_grid_linear_passive_concrete : forall e r phi tof Hs Hp,
+  (* grid *)
+  (forall signal pol, wf signal ->
+     let '((os, op), _) := propagate_spec (sig_filter_F concrete_filter) e r phi tof signal pol Hs Hp in
+     sg_times os = map (fun t => t + tof) (sg_times signal) /\ sg_times op = map (fun t => t + tof) (sg_times signal) /\
+     length (sg_values os) = length (sg_times signal) /\ length (sg_values op) = length (sg_times signal)) /\
+  (* linear in the signal *)
+  (forall a b x y pol, wf x -> sg_times y = sg_times x -> length (sg_values y) = length (sg_values x) ->
+     let sxy := mkSig (sg_times x) (lincomb a b (sg_values x) (sg_values y)) (sg_type x) in
+     let '((os, op), _) := propagate_spec (sig_filter_F concrete_filter) e r phi tof sxy pol Hs Hp in
+     let '((xs_, xp_), _) := propagate_spec (sig_filter_F concrete_filter) e r phi tof x pol Hs Hp in
+     let '((ys_, yp_), _) := propagate_spec (sig_filter_F concrete_filter) e r phi tof y pol Hs Hp in
+     sg_values os = lincomb a b (sg_values xs_) (sg_values ys_) /\ sg_values op = lincomb a b (sg_values xp_) (sg_values yp_)) /\
+  (* linear in the polarization *)
+  (forall a b x p q, wf x ->
+     let '((os, op), _) := propagate_spec (sig_filter_F concrete_filter) e r phi tof x (vadd (vscale a p) (vscale b q)) Hs Hp in
+     let '((ps_, pp_), _) := propagate_spec (sig_filter_F concrete_filter) e r phi tof x p Hs Hp in
+     let '((qs_, qp_), _) := propagate_spec (sig_filter_F concrete_filter) e r phi tof x q Hs Hp in
+     sg_values os = lincomb a b (sg_values ps_) (sg_values qs_) /\ sg_values op = lincomb a b (sg_values pp_) (sg_values qp_)) /\
+  (* passive *)
+  (forall signal pol, wf signal -> (forall u, cabs (Hs u) <= 1) -> (forall u, cabs (Hp u) <= 1) ->
+     let '((os, op), _) := propagate_spec (sig_filter_F concrete_filter) e r phi tof signal pol Hs Hp in
+     energy (sg_values os) + energy (sg_values op) <= vdot pol pol * energy (sg_values signal)).
+Proof. exact propagate_concrete_stmt. Qed.
+Print Assumptions propagate_grid_linear_passive_concrete.
 
 (* --- 5. polarization vectors -------------------------------------------------------------------- *)
 (* us0 e phi is the s-direction as propagate() builds it: normalize(e x z), and for an exactly
